@@ -204,3 +204,5 @@ def run(ctx):
                            'so the front end reports success while nothing was rebuilt')
     r.require_min(2)
     ctx.borrow('c05', ['R05e'], 'a loop variable of the wrong index space rebuilds a fragment from the wrong buffers and reports success')
+    ctx.borrow('c15', ['R15e'], 'the RS decoder may write a data fragment only when it is flagged missing - and must not read a missing parity as if it were present')
+    ctx.borrow('c03', ['R03b', 'R03c'], 'a supplied destination must be copied out whole')
